@@ -368,6 +368,9 @@ func stampOf(sec []byte) (uint32, bool) {
 
 // checkData compares bytes at off with the model; a sector may hold the
 // acknowledged write or any failed (unacknowledged) write that covered it later.
+// CheckData is checkData for other engines that keep the same model.
+func (w *World) CheckData(data []byte, off int64) string { return w.checkData(data, off) }
+
 func (w *World) checkData(data []byte, off int64) string {
 	for i := int64(0); i < int64(len(data))/512; i++ {
 		s := off/512 + i
